@@ -4,7 +4,7 @@ NOTES = ("All checks decide their property by bounded symbolic execution of /rep
 
 CHECKS = {
     "C07": dict(
-        text="Every path of the ASN.1 writers/readers for symbolic integers (|v| <= 2^72 quick, 2^520 thorough), booleans, OIDs (2..8 arcs, arcs < 2^64), "
+        text="Every path of the ASN.1 writers/readers for symbolic integers (|v| <= 2^72 quick, 2^520 thorough), booleans, OIDs (2..4 arcs with arcs < 2^64; thorough also 5, 6 and 8 arcs with arcs < 2^21 / 2^14), "
              "tags (class x constructed x number < 2^32), listed content lengths, content whose LENGTH is a solver variable over [0, 2^32) (thorough 2^64), a nested writer tree, UTF8String text whose code points are solver variables over all of Unicode, 13 listed texts that are not in normalisation form C, repeated packing of the same value, and 11 operation histories (peek/skip/read/remaining) on one reader is explored; on each path z3 proves the emitted "
              "octets equal an independent minimal-DER reference and the reader returns the value and consumes exactly the encoding. Exhaustive within "
              "those bounds, not beyond.",
